@@ -185,14 +185,7 @@ func conversionTupleToSet(tupleType cty.Type, setEty cty.Type, unsafe bool) conv
 		// This is a special case where the caller wants us to find
 		// a suitable single type that all elements can convert to, if
 		// possible.
-		setEty, _ = unify(tupleEtys, unsafe)
-		if setEty == cty.NilType && unsafe {
-			// Unsafe unification optimistically resolves nested dynamic
-			// types, which can make it fail where safe unification
-			// succeeds; everything offered as safe must be offered as
-			// unsafe too.
-			setEty, _ = unify(tupleEtys, false)
-		}
+		setEty = unifyForConversion(tupleEtys, unsafe)
 		if setEty == cty.NilType {
 			return nil
 		}
@@ -280,14 +273,7 @@ func conversionTupleToList(tupleType cty.Type, listEty cty.Type, unsafe bool) co
 		// This is a special case where the caller wants us to find
 		// a suitable single type that all elements can convert to, if
 		// possible.
-		listEty, _ = unify(tupleEtys, unsafe)
-		if listEty == cty.NilType && unsafe {
-			// Unsafe unification optimistically resolves nested dynamic
-			// types, which can make it fail where safe unification
-			// succeeds; everything offered as safe must be offered as
-			// unsafe too.
-			listEty, _ = unify(tupleEtys, false)
-		}
+		listEty = unifyForConversion(tupleEtys, unsafe)
 		if listEty == cty.NilType {
 			return nil
 		}
@@ -383,14 +369,7 @@ func conversionObjectToMap(objectType cty.Type, mapEty cty.Type, unsafe bool) co
 		for _, aty := range objectAtys {
 			objectAtysList = append(objectAtysList, aty)
 		}
-		mapEty, _ = unify(objectAtysList, unsafe)
-		if mapEty == cty.NilType && unsafe {
-			// Unsafe unification optimistically resolves nested dynamic
-			// types, which can make it fail where safe unification
-			// succeeds; everything offered as safe must be offered as
-			// unsafe too.
-			mapEty, _ = unify(objectAtysList, false)
-		}
+		mapEty = unifyForConversion(objectAtysList, unsafe)
 		if mapEty == cty.NilType {
 			return nil
 		}
@@ -641,4 +620,30 @@ func stripOptionalFromNull(val cty.Value) cty.Value {
 	}
 	unmarked, marks := val.Unmark()
 	return cty.NullVal(unmarked.Type().WithoutOptionalAttributesDeep()).WithMarks(marks)
+}
+
+// unifyForConversion finds a single type that all of the given types can be
+// converted to, for a conversion to a collection type whose element type
+// was not constrained by the caller. It returns cty.NilType if there is no
+// such type.
+func unifyForConversion(tys []cty.Type, unsafe bool) cty.Type {
+	ty, _ := unify(tys, unsafe)
+	if !unsafe {
+		return ty
+	}
+
+	// Unsafe unification optimistically resolves nested dynamic types, which
+	// can make it fail, or choose a type that not all of the given types can
+	// convert to, where safe unification succeeds. Everything offered as safe
+	// must be offered as unsafe too, so we fall back on safe unification then.
+	ok := ty != cty.NilType
+	for i := 0; ok && i < len(tys); i++ {
+		if !tys[i].Equals(ty) && getConversion(tys[i], ty, true) == nil {
+			ok = false
+		}
+	}
+	if !ok {
+		ty, _ = unify(tys, false)
+	}
+	return ty
 }
